@@ -10,6 +10,7 @@
 -/
 import XzVerif.Model.Proto
 import XzVerif.Model.MtEnc
+import XzVerif.Gen.C08
 open XzVerif XzVerif.Proto XzVerif.MtEnc
 
 structure Rec where
@@ -47,6 +48,7 @@ def mkParams (t : Tab) : Params where
   unpadded := fun o _ _ => t.unp.getD o 0
   tailBytes := fun idx => zeros (indexSize idx + 12)
   alloc := t.alloc
+  chunk := XzVerif.Gen.C08.inChunkMax
 
 /-- First pass: split the trace into streams and collect, per stream, the published size of every Block. -/
 def prescan (evs : Array Rec) : Array Tab := Id.run do
